@@ -52,8 +52,10 @@ def write_evidence(check, prop, tier, seed, tot, wall, first, last, budget_s, pr
         "wall_s": round(wall, 2),
         "violations": int(n_viol),
     }
-    os.makedirs(os.path.join(VERIF, "evidence"), exist_ok=True)
-    path = os.path.join(VERIF, "evidence", f"{prop}.json")
+    # a sensitivity / seeded-mutant run must not overwrite the evidence of the real tree
+    edir = os.environ.get("SIMFLOX_EVIDENCE_DIR") or os.path.join(VERIF, "evidence")
+    os.makedirs(edir, exist_ok=True)
+    path = os.path.join(edir, f"{prop}.json")
     tmp = path + ".tmp"
     with open(tmp, "w") as f:
         json.dump(doc, f, indent=1, sort_keys=False, default=str)
